@@ -589,6 +589,8 @@ func checkNestedT[TA, TP, TR any](c *core.Ctx, nc *nestCase, ad nestAdapters[TA,
 					}
 				}
 			}
+			// typed navigation: cursors on paths inside / outside the shredding schema (navigate.go)
+			checkNavigate(c, where, nc, data, l.s, l.path, &nc.plus, flatWant, true)
 		}
 	}
 	verify(data, rschema, where)
@@ -771,6 +773,8 @@ func shrinkNested(c *core.Ctx, nc *nestCase) *nestCase {
 	}
 	for _, simpler := range []func(*nestCase){
 		func(x *nestCase) { x.Evo = nil },
+		func(x *nestCase) { x.Nav = nil },
+		func(x *nestCase) { x.NavAll = false },
 		func(x *nestCase) { x.Dict, x.DictMax = "", 0 },
 		func(x *nestCase) { x.Late = false },
 		func(x *nestCase) { x.Window = 0 },
@@ -786,6 +790,12 @@ func shrinkNested(c *core.Ctx, nc *nestCase) *nestCase {
 			cur = t
 		}
 	}
+	cur.Nav = shrinkNav(cur.Nav, func(nav []string) bool {
+		t := cur
+		t.Rows = cloneRows(cur.Rows)
+		t.Nav = nav
+		return fails(&t)
+	})
 	for i := range cur.Rows {
 		for j, it := range cur.Rows[i].Items {
 			if it == "" {
@@ -901,6 +911,13 @@ func (g *gen) nested(i int) *nestCase {
 			}
 		}
 		nc.Rows = append(nc.Rows, row)
+	}
+	if nc.Nest == "opt" {
+		var items []string
+		for _, row := range nc.Rows {
+			items = append(items, row.Items...)
+		}
+		nc.Nav, nc.NavAll = g.navPaths(s, items), g.aux.Intn(3) == 0
 	}
 	return nc
 }
